@@ -40,6 +40,14 @@ def load_mutants(prop):
                 meta = json.load(open(mp))
                 if meta.get('breaks_property') == prop and meta.get('expect', 'violation') == 'violation':
                     out.append({'name': 'seed:' + sid, 'patch': pp, 'expect': 'violation'})
+    # behaviour-preserving refactorings written by sub-agents (refactors/<id>/): the
+    # check must stay silent on every one of them, whatever the property
+    rdir = os.path.join(VERIF, 'refactors')
+    if os.path.isdir(rdir):
+        for rid in sorted(os.listdir(rdir)):
+            pp = os.path.join(rdir, rid, 'patch.diff')
+            if os.path.exists(pp):
+                out.append({'name': 'refactor:' + rid, 'patch': pp, 'expect': 'silent'})
     return out
 
 
